@@ -10,3 +10,18 @@ open SteelVerif.C05
 #print axioms total_is_sum
 #print axioms example_history_frees_once
 #print axioms example_unique_granted
+#print axioms step_inv2
+#print axioms no_leak_at_quiescence
+#print axioms destroyed_exactly_once
+#print axioms example_quiescent_reachable
+#print axioms unregistered_owner_parks_forever
+#print axioms solo_step
+#print axioms op_completes_solo
+#print axioms merge_drains
+#print axioms example_solo_retry
+#print axioms example_merge_drains
+#print axioms example_solo_last_drop
+#print axioms step_lockInv
+#print axioms guard_holder_is_merging
+#print axioms never_blocked_at_enqueue
+#print axioms example_guard_held
